@@ -678,7 +678,8 @@ fn mutate(prog: &Prog, r: &mut Prng, style: &Style) -> (String, bool, &'static s
             // truncation inside a block: cut the text somewhere after a block header and before its end
             let p2 = with_block(&p, r);
             let text = plain(&p2, r);
-            let lo = text.find("loop").or(text.find("while")).unwrap_or(0);
+            // the inserted block is the first statement: its header is the line after the test header
+            let lo = text.find('\n').map(|i| i + 1).unwrap_or(0);
             // cut strictly inside the inserted (first) block: after its header line, before its `end`
             let hdr_end = text[lo..].find('\n').map(|i| lo + i + 1).unwrap_or(text.len());
             let hi = text[hdr_end..].find("end ").map(|i| hdr_end + i).unwrap_or(text.len());
